@@ -31,3 +31,16 @@ package groth16
 //@   props C09
 //@   requires proof != nil
 //@   ensures @fields err == nil ==> nDec(dec, 0) == 5 && decItem(dec, 0) == boxid(iface(&proof.Ar)) && decItem(dec, 1) == boxid(iface(&proof.Bs)) && decItem(dec, 2) == boxid(iface(&proof.Krs)) && decItem(dec, 3) == boxid(iface(&proof.Commitments)) && decItem(dec, 4) == boxid(iface(&proof.CommitmentPok))
+
+// ---- C09: a decoded verifying key carries the derived values Verify uses: e = e(alpha, beta) and the negated
+// delta and gamma are recomputed from the decoded points, never taken from the stream or left stale.
+//@ spec func precomputed(vk *VerifyingKey) bool = isPair(vk.e, vk.G1.Alpha, vk.G2.Beta) && isNegG2(vk.G2.deltaNeg, vk.G2.Delta) && isNegG2(vk.G2.gammaNeg, vk.G2.Gamma)
+//@ contract (*VerifyingKey).Precompute
+//@   props C09
+//@   assigns vk.e, vk.G2.deltaNeg, vk.G2.gammaNeg
+//@   requires vk != nil
+//@   ensures @derived result == nil ==> precomputed(vk)
+//@ contract (*VerifyingKey).readFrom
+//@   props C09
+//@   requires vk != nil
+//@   ensures @derived-after-decode result.1 == nil ==> precomputed(vk)
